@@ -90,14 +90,21 @@ Fixpoint su_set (l : sunits) (k : Z) (v : astate) : sunits :=
 (* protocol id of a Modbus response *)
 Definition modbus_pid : Z := 0.
 
+(* a framing on the spec side: the ADU of a request and the ADU of the response to it *)
+Definition adu_fn := e2e_req -> bytes -> bytes.
+Definition tcp_adu : adu_fn := fun q pdu => spec_adu_tcp (q_tid q) modbus_pid (q_uid q) pdu.
+(* serial framings carry no transaction / protocol id *)
+Definition ascii_adu : adu_fn := fun q pdu => spec_adu_ascii (q_uid q) pdu.
+
 (* the answer to request q on abstract state s: new state and the response ADU *)
-Definition spec_answer (s : astate) (q : e2e_req) : option (astate * bytes) :=
+Definition spec_answer_g (adu : adu_fn) (s : astate) (q : e2e_req) : option (astate * bytes) :=
   match wreq_of (q_body q) with
   | Some w =>
       let '(s', r) := spec_exec s w in
-      Some (s', spec_adu_tcp (q_tid q) modbus_pid (q_uid q) (spec_pdu (spec_response_msg r)))
+      Some (s', adu q (spec_pdu (spec_response_msg r)))
   | None => None
   end.
+Definition spec_answer := spec_answer_g tcp_adu.
 
 (* a server configured with a single context serves every unit id from the context stored under 0 *)
 Definition spec_key (single : bool) (uid : Z) : Z := if single then 0 else uid.
@@ -105,20 +112,21 @@ Definition spec_key (single : bool) (uid : Z) : Z := if single then 0 else uid.
 (* requests to served units, in order: final states and the bytes that must have been written.
    (A request to a unit that is not hosted, or that is not a data-access request, is outside this
    function: it is skipped; see [spec_check] for the full decision.) *)
-Fixpoint spec_run (single : bool) (su : sunits) (qs : list e2e_req) : sunits * bytes :=
+Fixpoint spec_run_g (adu : adu_fn) (single : bool) (su : sunits) (qs : list e2e_req) : sunits * bytes :=
   match qs with
   | [] => (su, [])
   | q :: t =>
       let k := spec_key single (q_uid q) in
       match su_get su k with
       | Some s =>
-          match spec_answer s q with
-          | Some (s', b) => let '(su2, b2) := spec_run single (su_set su k s') t in (su2, b ++ b2)
-          | None => spec_run single su t
+          match spec_answer_g adu s q with
+          | Some (s', b) => let '(su2, b2) := spec_run_g adu single (su_set su k s') t in (su2, b ++ b2)
+          | None => spec_run_g adu single su t
           end
-      | None => spec_run single su t
+      | None => spec_run_g adu single su t
       end
   end.
+Definition spec_run := spec_run_g tcp_adu.
 
 (* ---------------------------------------------------------------- the oracle as a checker *)
 Fixpoint strip_prefix (p l : bytes) : option bytes :=
@@ -142,23 +150,23 @@ Definition fc_of_sreq (b : sreq) : Z :=
   match sreq_pdu b with x :: _ => Z.of_N x | [] => 0 end.
 
 (* Some final-states = the written bytes are what the property demands *)
-Fixpoint spec_check (has_bcast : bool) (cfg : scfg) (su : sunits) (qs : list e2e_req) (written : bytes) : option sunits :=
+Fixpoint spec_check_g (adu : adu_fn) (has_bcast : bool) (cfg : scfg) (su : sunits) (qs : list e2e_req) (written : bytes) : option sunits :=
   match qs with
   | [] => match written with [] => Some su | _ => None end
   | q :: t =>
       match spec_route has_bcast cfg (map fst su) (q_uid q) with
       | VBroadcast =>
           match wreq_of (q_body q) with
-          | Some w => spec_check has_bcast cfg (map (fun p => (fst p, fst (spec_exec (snd p) w))) su) t written
+          | Some w => spec_check_g adu has_bcast cfg (map (fun p => (fst p, fst (spec_exec (snd p) w))) su) t written
           | None => None
           end
       | VRespond k =>
           match su_get su k with
           | Some s =>
-              match spec_answer s q with
+              match spec_answer_g adu s q with
               | Some (s', b) =>
                   match strip_prefix b written with
-                  | Some rest => spec_check has_bcast cfg (su_set su k s') t rest
+                  | Some rest => spec_check_g adu has_bcast cfg (su_set su k s') t rest
                   | None => None
                   end
               | None => None
@@ -166,14 +174,15 @@ Fixpoint spec_check (has_bcast : bool) (cfg : scfg) (su : sunits) (qs : list e2e
           | None => None
           end
       | VAbsent =>
-          let b := spec_adu_tcp (q_tid q) modbus_pid (q_uid q)
-                     [Z.to_N (Z.lor (fc_of_sreq (q_body q)) 128); Z.to_N gateway_no_response] in
+          let b := adu q [Z.to_N (Z.lor (fc_of_sreq (q_body q)) 128); Z.to_N gateway_no_response] in
           match strip_prefix b written with
-          | Some rest => spec_check has_bcast cfg su t rest
-          | None => spec_check has_bcast cfg su t written
+          | Some rest => spec_check_g adu has_bcast cfg su t rest
+          | None => spec_check_g adu has_bcast cfg su t written
           end
       end
   end.
+
+Definition spec_check := spec_check_g tcp_adu.
 
 (* ---------------------------------------------------------------- cases *)
 (* byte strings in case files are written as lists of Z literals *)
